@@ -49,6 +49,24 @@ type Agent struct {
 	finished  atomic.Bool
 
 	lock sync.RWMutex
+
+	// writeLock serializes the status writes of the goroutines of Run;
+	// finalWritten is set with the status written after Schedule returned:
+	// nothing may be written after it (the store is closed then).
+	writeLock    sync.Mutex
+	finalWritten bool
+}
+
+// writeStatus records the current status. Once the final status has been
+// written, later (stale) writers are ignored.
+func (a *Agent) writeStatus(final bool) error {
+	a.writeLock.Lock()
+	defer a.writeLock.Unlock()
+	if a.finalWritten {
+		return nil
+	}
+	a.finalWritten = final
+	return a.historyStore.Write(a.Status())
 }
 
 // Options is the configuration for the Agent.
@@ -127,7 +145,7 @@ func (a *Agent) Run(ctx context.Context) error {
 		}
 	}()
 
-	if err := a.historyStore.Write(a.Status()); err != nil {
+	if err := a.writeStatus(false); err != nil {
 		a.logger.Error("Failed to write status", "error", err)
 	}
 
@@ -164,7 +182,7 @@ func (a *Agent) Run(ctx context.Context) error {
 	go func() {
 		for node := range done {
 			status := a.Status()
-			if err := a.historyStore.Write(status); err != nil {
+			if err := a.writeStatus(false); err != nil {
 				a.logger.Error("Failed to write status", "error", err)
 			}
 			if err := a.reporter.reportStep(a.dag, status, node); err != nil {
@@ -180,7 +198,7 @@ func (a *Agent) Run(ctx context.Context) error {
 		if a.finished.Load() {
 			return
 		}
-		if err := a.historyStore.Write(a.Status()); err != nil {
+		if err := a.writeStatus(false); err != nil {
 			a.logger.Error("Status write failed", "error", err)
 		}
 	}()
@@ -192,7 +210,7 @@ func (a *Agent) Run(ctx context.Context) error {
 	// Update the finished status to the history database.
 	finishedStatus := a.Status()
 	a.logger.Info("Workflow execution finished", "status", finishedStatus.Status)
-	if err := a.historyStore.Write(a.Status()); err != nil {
+	if err := a.writeStatus(true); err != nil {
 		a.logger.Error("Status write failed", "error", err)
 	}
 
